@@ -116,6 +116,53 @@ def extract_backslash_flags():
     return [(v.lower(), default if over[handler[v]] is None else over[handler[v]]) for v in variants]
 
 
+def extract_interval_styles():
+    """[(dialect name, style for weeks, style for every other unit)]: Dialect -> handler -> interval_quoting_style"""
+    src = read(DIALECT)
+    m = mask(src)
+    variants = [v for v, _ in enum_variants(DIALECT, "Dialect")]
+    s, e = block_after(src, m, r"fn\s+handler\s*\(&self\)[^{]*\{")
+    s2, e2 = block_after(src[s:e], m[s:e], r"match\s+self\s*\{")
+    handler = {}
+    for pat, body in match_arms(src[s:e], m[s:e], s2, e2):
+        mb = re.fullmatch(r"Box::new\(([A-Za-z]+)\)", body.strip())
+        for p_ in pat.split("|"):
+            handler[re.fullmatch(r"Dialect::([A-Za-z]+)", p_.strip()).group(1)] = mb.group(1)
+
+    def style_of(s_, e_, where):
+        hits = [x for x in re.finditer(r"\bfn\s+interval_quoting_style\s*\(", m[s_:e_])]
+        if not hits:
+            return None
+        if len(hits) > 1:
+            raise ExtractError("%s: interval_quoting_style defined twice" % where)
+        bo = m.index("{", m.index(")", s_ + hits[0].start()))
+        bc = match_brace(m, bo)
+        body = re.sub(r"\s+", " ", m[bo + 1:bc]).strip()
+        m1 = re.fullmatch(r"IntervalQuotingStyle::([A-Za-z]+)", body)
+        if m1:
+            return (m1.group(1), m1.group(1))
+        m2 = re.fullmatch(r"if matches!\(dtf, DateTimeField::Week\(_\) \| DateTimeField::Weeks\) \{ IntervalQuotingStyle::([A-Za-z]+) \} else \{ IntervalQuotingStyle::([A-Za-z]+) \}", body)
+        if m2:
+            return (m2.group(1), m2.group(2))
+        raise ExtractError("%s: body of interval_quoting_style is not a modelled shape: %r" % (where, body[:80]))
+    s, e = block_after(src, m, r"trait\s+DialectHandler\b[^{]*\{")
+    default = style_of(s, e, "trait DialectHandler")
+    if default is None:
+        raise ExtractError("trait DialectHandler has no interval_quoting_style")
+    over = {}
+    for mm in re.finditer(r"impl\s+DialectHandler\s+for\s+([A-Za-z]+)\s*\{", m):
+        bo = mm.end() - 1
+        over[mm.group(1)] = style_of(bo + 1, match_brace(m, bo), "impl DialectHandler for " + mm.group(1))
+    out = []
+    for v in variants:
+        st = over.get(handler[v]) or default
+        for x in st:
+            if x not in ("NoQuotes", "ValueAndUnitQuoted", "ValueQuoted"):
+                raise ExtractError("unknown IntervalQuotingStyle %s" % x)
+        out.append((v.lower(), st[0], st[1]))
+    return out
+
+
 def reader_flags(names):
     """[(dialect name, backslash is an escape inside '...', \\% and \\_ keep their backslash)]: how the database side reads
     string literals, as stated by the pinned sqlparser's dialect objects (the compiled dependency answers for itself:
@@ -204,6 +251,20 @@ def extract():
     if "*c != '\\'' && *c != '\"' && *c != '\\n' && *c != '\\r'" not in rs or 'just("r")' not in rs or "Literal::RawString(s.to_string())" not in rs:
         raise ExtractError("raw_string() changed")
 
+    # interval literals: <integer><unit>
+    s, e = block_after(src, m, r"fn\s+value_and_unit\b[^{]*\{")
+    vu = norm(src[s:e])
+    mu = re.fullmatch(r'let unit = choice\(\( ((?:just\("[a-z]+"\), )+)\)\); parse_integer\(\)\.then\(unit\)\.then_ignore\(end_expr\(\)\)\.map\( '
+                      r'\|\(number_str, unit_str\): \(&str, &str\)\| \{ let n = number_str\.replace\(\'_\', ""\)\.parse::<i64>\(\)\.unwrap_or\(1\); '
+                      r'Literal::ValueAndUnit\(ValueAndUnit \{ n, unit: unit_str\.to_string\(\), \}\) \}, \)', vu)
+    if not mu:
+        raise ExtractError("value_and_unit() is no longer the modelled one")
+    info["interval_units"] = re.findall(r'just\("([a-z]+)"\)', mu.group(1))
+    for a_ in info["interval_units"]:
+        for b_ in info["interval_units"]:
+            if a_ != b_ and b_.startswith(a_):
+                raise ExtractError("interval unit %s is a prefix of %s: the order of the choice matters (not modelled)" % (a_, b_))
+
     # based numbers
     rows = []
     for name in ("binary_number", "hexadecimal_number", "octal_number"):
@@ -287,6 +348,24 @@ def extract():
     for k in ("Literal::Time(value)", "Literal::Timestamp(value)", "Literal::ValueAndUnit(vau)"):
         if k not in arms:
             raise ExtractError("translate_literal arm %s missing" % k)
+    vau = arms["Literal::ValueAndUnit(vau)"]
+    mv_ = re.fullmatch(r'\{ let sql_parser_datetime = match vau\.unit\.as_str\(\) \{ ((?:"[a-z]+" => DateTimeField::[A-Za-z]+(?:\(None\))?, )+)'
+                       r'_ => \{ return Err\(Error::new_simple\(format!\( "Unsupported interval unit: \{\}", vau\.unit \)\)\) \} \}; (.*) \}', vau)
+    if not mv_:
+        raise ExtractError("translate_literal: the interval arm no longer starts with the unit -> DateTimeField table")
+    fields = re.findall(r'"([a-z]+)" => DateTimeField::([A-Za-z]+)(\(None\))?, ', mv_.group(1))
+    # sqlparser's Display of these DateTimeField variants is the upper-cased variant name (Week(None): WEEK) -- dependency
+    # behaviour, validated by the hook stream; variants with another Display (Custom, Week(Some)) are not in the table
+    info["interval_fields"] = [(u, v.upper(), v == "Week") for u, v, _ in fields]
+    if any((v == "Week") != bool(p_) for _, v, p_ in fields):
+        raise ExtractError("translate_literal: DateTimeField payloads changed")
+    sk = ("sql_ast::Expr::Interval(sqlparser::ast::Interval { value, leading_field: %s, leading_precision: None, last_field: None, fractional_seconds_precision: None, })")
+    want_styles = ('match ctx.dialect.interval_quoting_style(&sql_parser_datetime) { '
+                   'IntervalQuotingStyle::ValueAndUnitQuoted => { let value = Box::new(sql_ast::Expr::Value( Value::SingleQuotedString(format!("{} {}", vau.n, sql_parser_datetime)) .into(), )); ' + sk % "None" + ' } '
+                   'IntervalQuotingStyle::NoQuotes => { let value = Box::new(translate_literal(Literal::Integer(vau.n), ctx)?); ' + sk % "Some(sql_parser_datetime)" + ' } '
+                   'IntervalQuotingStyle::ValueQuoted => { let value = Box::new(sql_ast::Expr::Value( Value::SingleQuotedString(vau.n.to_string()).into(), )); ' + sk % "Some(sql_parser_datetime)" + ' } }')
+    if mv_.group(2) != want_styles:
+        raise ExtractError("translate_literal: the three interval quoting styles are no longer the modelled ones")
     if len(arms) != 9:
         raise ExtractError("translate_literal: %d arms (expected 9)" % len(arms))
     if "sql_ast::DataType::Time(None, sql_ast::TimezoneInfo::None)" not in arms["Literal::Time(value)"] or \
@@ -314,6 +393,7 @@ def extract():
     if uses != ["gen_expr.rs"] or len(re.findall(r"\b%s\b" % BS_FLAG, mg)) != 2 or len(re.findall(r"\b%s\b" % BS_FLAG, mg[inner_span[0]:inner_span[1]])) != 1:
         raise ExtractError("%s is consulted somewhere else than once in translate_literal: %s" % (BS_FLAG, uses))
     info["reader"] = reader_flags([n for n, _ in info["writer_bs"]])
+    info["interval_styles"] = extract_interval_styles()
 
     # the documented escape table (the specification side)
     doc = read("web/book/src/reference/syntax/strings.md")
@@ -377,5 +457,13 @@ def generate():
     v += "Definition writer_backslash_doubling : list (list N * bool) :=\n  [ " + ";\n    ".join("(%s, %s) (* %s *)" % (codes(n), b(w), n) for n, w in info["writer_bs"]) + " ].\n\n"
     v += "(* the pinned sqlparser's dialect objects: (name, (backslash escapes inside '...', \\% \\_ keep the backslash)) *)\n"
     v += "Definition reader_backslash_escape : list (list N * (bool * bool)) :=\n  [ " + ";\n    ".join("(%s, (%s, %s)) (* %s *)" % (codes(n), b(x), b(y), n) for n, x, y in info["reader"]) + " ].\n"
+    v += "\n(* lexer value_and_unit: the unit names, in the order of the choice *)\n"
+    v += "Definition interval_unit_names : list (list N) :=\n  [ " + ";\n    ".join("%s (* %s *)" % (codes(u), u) for u in info["interval_units"]) + " ].\n\n"
+    v += "(* translate_literal: unit -> (sqlparser DateTimeField as printed, is it the week field) *)\n"
+    v += "Definition interval_fields : list (list N * (list N * bool)) :=\n  [ " + ";\n    ".join("(%s, (%s, %s)) (* %s -> %s *)" % (codes(u), codes(f), b(w), u, f) for u, f, w in info["interval_fields"]) + " ].\n\n"
+    sty = {"NoQuotes": "INoQuotes", "ValueAndUnitQuoted": "IValueAndUnitQuoted", "ValueQuoted": "IValueQuoted"}
+    v += "(* sql/dialect.rs interval_quoting_style per dialect: (style for weeks, style for the other units) *)\n"
+    v += "Definition interval_styles : list (list N * (istyle * istyle)) :=\n  [ " + ";\n    ".join("(%s, (%s, %s)) (* %s *)" % (codes(n), sty[a_], sty[b_], n) for n, a_, b_ in info["interval_styles"]) + " ].\n"
+    v = v.replace("From Coq Require Import List NArith.\n", "From Coq Require Import List NArith.\nFrom PV Require Import Model.Interval.\n", 1)
     gen_write("GenLiteral", v)
     return info
